@@ -94,6 +94,36 @@ class Path:
                 return i
         return len(self.items)
 
+    def _return_of(self, fn, binding, pos, at, depth):
+        """If the call at element `at` of frame (fn, binding) was spliced into this path before `pos`,
+        return {'k':'retof', ...} wrapping the expression its `return` yielded on THIS path."""
+        for j in range(pos - 1, -1, -1):
+            en = self.items[j]
+            if en.kind != 'enter':
+                continue
+            c = en.call
+            if c.fn is not fn or c.binding is not binding or (c.b, c.i) != at:
+                continue
+            # frame of the callee: items after j up to the matching Leave
+            level = 0
+            ret = None
+            rpos = None
+            for k2 in range(j + 1, len(self.items)):
+                it = self.items[k2]
+                if it.kind == 'enter':
+                    level += 1
+                elif it.kind == 'leave':
+                    if level == 0:
+                        break
+                    level -= 1
+                elif level == 0 and it.kind == 'ev' and isinstance(it.x, dict) and it.x.get('k') == 'ret':
+                    ret, rpos = it, k2
+            if ret is None or 'e' not in ret.x:
+                return None
+            return {'k': 'retof', 'n': en.fn.n, '_at': at,
+                    'e': self._po(ret.fn, ret.binding, rpos, ret.x['e'], depth + 1)}
+        return None
+
     def _reaching(self, fn, binding, pos, decl_id):
         for j in range(pos - 1, -1, -1):
             it = self.items[j]
@@ -110,6 +140,15 @@ class Path:
                     if x.get('k') == 'assign' and x.get('op') != '=':
                         return j, {'k': 'bin', 'op': x['op'][:-1], 'l': {'k': 'prev', 'd': decl_id}, 'r': r}
                     return j, r
+            # in-place modification (`++it`, `it += n`, ...): a new, distinct value
+            if x.get('k') == 'call' and x.get('op') in ('++', '--', '+=', '-=') and x.get('args'):
+                l = strip(x['args'][0])
+                if isinstance(l, dict) and l.get('k') == 'ref' and l.get('d') == decl_id:
+                    return j, {'k': 'modified', 'op': x['op'], 'seq': j, 'v': decl_id}
+            if x.get('k') == 'un' and x.get('op') in ('pre++', 'pre--', 'post++', 'post--'):
+                l = strip(x.get('e'))
+                if isinstance(l, dict) and l.get('k') == 'ref' and l.get('d') == decl_id:
+                    return j, {'k': 'modified', 'op': x['op'], 'seq': j, 'v': decl_id}
             if x.get('k') == 'decls':
                 for d in x['ds']:
                     if d.get('k') == 'decl' and d.get('d') == decl_id:
@@ -125,11 +164,20 @@ class Path:
             return x
         k = x.get('k')
         if k == 'elem':
-            r = self._po(fn, binding, pos, fn.elem(x['b'], x['i']), depth + 1)
+            raw = fn.elem(x['b'], x['i'])
+            if isinstance(raw, dict) and raw.get('k') == 'call':
+                rv = self._return_of(fn, binding, pos, (x['b'], x['i']), depth)
+                if rv is not None:
+                    return rv
+            r = self._po(fn, binding, pos, raw, depth + 1)
             if isinstance(r, dict):
                 r = dict(r)
                 r['_at'] = (x['b'], x['i'])
             return r
+        if k == 'call' and x.get('_at') is not None:
+            rv = self._return_of(fn, binding, pos, tuple(x['_at']), depth)
+            if rv is not None:
+                return rv
         if k == 'ref':
             dk = x.get('dk')
             if dk == 'local':
@@ -176,7 +224,7 @@ class Path:
         for c in self.conds():
             if not ok:
                 break
-            cmp_ = c.cmp()
+            cmp_ = self.cmp(c)      # path-sensitive: sees through helper returns and re-assigned locals
             if cmp_ is None:
                 continue
             op, l, r = cmp_
@@ -334,12 +382,14 @@ def _ckey(x):
         c = y.get('c')
         if c is not None and y.get('k') in ('lit', 'ref', 'icast', 'cast', 'bin', 'un'):
             return ('const', c)
-        if y.get('k') == 'ctor' and y.get('cls') == 'error_code' and y.get('args'):
+        if y.get('k') == 'ctor' and y.get('cls') == 'error_code':
+            if not y.get('args'):
+                return ('const', 0)
             e = enum_of(y['args'][0])
             if e:
                 return ('const', 'errc:' + e)
-            if not y['args']:
-                return ('const', 0)
+        if y.get('k') == 'init' and y.get('tcls') == 'error_code' and not y.get('args'):
+            return ('const', 0)
         e = enum_of(y)
         if e and y.get('k') != 'ref':
             return ('const', 'enum:' + e)
